@@ -504,3 +504,21 @@ def c18(tier: str) -> int:
                         'cache is cleared between configurations (the registry is configuration, not history)',
                         'marker converters make the converter in use observable in the result']
     return rep.finish()
+
+
+IO_CFGS = {'quick': 'MC_Grammar_io_q.cfg', 'thorough': 'MC_Grammar_io_t.cfg'}
+
+
+@check('C19')
+def c19(tier: str) -> int:
+    from . import iocheck
+    rep = Report('C19', tier)
+    res = engine.model_check('MC_Grammar', IO_CFGS[tier], dump=True)
+    rep.add_mc(res, IO_CFGS[tier])
+    cases = pipeline.cases_from_states(engine.dump_states(res))
+    cases = [(T, v) for (T, v) in cases if v['k'] in ('map', 'seq', 'str', 'int', 'float', 'bool', 'none')]
+    rep.exhaustive = True
+    iocheck.run(rep, tier, cases)
+    rep.assumptions += ['the json and yaml libraries are trusted components (exercised, not modelled)',
+                        'handles opened by the library are observed by shadowing the name `open` in the pane.io module from the harness']
+    return rep.finish()
